@@ -391,9 +391,96 @@ def run_catalogue(ctx):
             check_snippets(ctx, texts, r, "catalogue", replay)
 
 
+def span_text(span, texts):
+    r1, c1, r2, c2, fname = span
+    lines = texts[int(fname.split("-")[1])].split("\n")
+    if r1 == r2:
+        return lines[r1 - 1][c1 - 1:c2 - 1]
+    return "\n".join([lines[r1 - 1][c1 - 1:]] + lines[r1:r2 - 1] + [lines[r2 - 1][:c2 - 1]])
+
+
+NAMED = {   # code -> how the element named first in the message must show in the spanned text
+    "E019": re.compile(r"^typealias\s+\\?(\w+)$"),      # self-referential type alias 'M::X': points at "typealias X"
+    "E010": re.compile(r"^\\?(\w+)$"),                  # redefinition of 'X': points at the identifier
+    "E011": re.compile(r"^\\?(\w+)$"),                  # 'X' shadows another symbol
+    # (E033 is not in this table: through an alias it names the innermost unresolvable identifier and points at the written reference)
+}
+
+
+def run_named(ctx, count, idx):
+    """Diagnostics that name the element they are about: the location must be on *that* element, not on a neighbour that takes
+    part in the same defect (alias loops through several aliases, modules and anonymous types; redefinitions; shadowing)."""
+    rng = ctx.rng("named/%d" % idx)
+    names = ["Outer", "Inner", "Mid", "Leaf", "Node", "Tree", "Key", "Val"]
+    mods = ["Demo", "Demo::Sub", "Other", "Demo"]
+    wraps = ["{t}", "{t}", "Sequence<{t}>", "Dictionary<bool, {t}>", "Dictionary<{t}, bool>", "Result<{t}, bool>", "Result<bool, Sequence<{t}>>",
+             "Sequence<Dictionary<string, {t}?>>"]
+    for n in range(count):
+        k = rng.randint(2, 5)
+        chosen = rng.sample(names, k)
+        home = [rng.randrange(rng.randint(1, len(mods))) for _ in chosen]       # file index = module index
+        full = ["::%s::%s" % (mods[h], nm) for nm, h in zip(chosen, home)]
+        files = {}
+        for i, nm in enumerate(chosen):
+            t = rng.randrange(k + 1)
+            if t < k:
+                target = full[t] if (home[t] != home[i] or rng.random() < 0.5) else chosen[t]
+                target = rng.choice(wraps).format(t=target)
+            else:
+                target = rng.choice(["bool", "Sequence<int32>", "string"])
+            files.setdefault(home[i], []).append("typealias %s = %s" % (nm, target))
+        extra = rng.random()
+        for h in list(files):
+            rng.shuffle(files[h])
+            if extra < 0.4:
+                mine = [full[i] for i in range(k)]
+                files[h].append("struct U%d { %s }" % (h, ", ".join("f%d: %s" % (j, rng.choice(mine)) for j in range(rng.randint(1, 3)))))
+            elif extra < 0.55:
+                dup = rng.choice(names)
+                files[h] += ["struct %s {}" % dup, "enum %s { A }" % dup] if dup not in chosen else []
+            elif extra < 0.7:
+                files[h] += ["interface Base%d { op%d() }" % (h, h), "interface D%d : Base%d { op%d() }" % (h, h, h)]
+        order = sorted(files)
+        rng.shuffle(order)
+        texts = ["module %s\n%s\n" % (mods[h], "\n".join(files[h])) for h in order]
+        r = ctx.worker.request({"op": "compile", "files": texts, "want": ["diags"]})
+        ctx.note_case(("named", tuple(texts)))
+        ctx.stats["named_programs"] += 1
+        replay = {"kind": "library", "call": "compile_from_strings", "files": texts}
+        if "died" in r or r.get("panic"):
+            p = r.get("panic") or {"message": "worker " + r["died"], "location": "?"}
+            ctx.violate(core.panic_signature(p), "crashed: %s" % p, replay)
+            continue
+        for d in r["diags"]:
+            todo = [(d["code"], d["message"], d["span"])]
+            for note in d.get("notes", []):
+                if "was previously defined here" in note.get("message", "") and note.get("span"):
+                    todo.append(("E010", note["message"], note["span"]))
+            for code, message, span in todo:
+                rx = NAMED.get(code)
+                m = re.search(r"'([^']+)'", message)
+                if not rx or not m or span is None or sane(span, texts):
+                    continue
+                ctx.stats["named_diagnostics"] += 1
+                ctx.stats["named_" + code] += 1
+                named = m.group(1).split("::")[-1]
+                text = span_text(span, texts)
+                sm = rx.match(text)
+                if not sm or sm.group(1) != named:
+                    replay["diagnostic"] = [code, message, span, text]
+                    ctx.violate("diagnostic-points-at-other-element:" + code, "%s %r is located at %d:%d, which reads %r"
+                                % (code, message, span[0], span[1], text), replay)
+                    break
+            else:
+                continue
+            break
+
+
 def run_shard(ctx, spec):
     if spec[0] == "catalogue":
         return run_catalogue(ctx)
+    if spec[0] == "named":
+        return run_named(ctx, spec[1], spec[2])
     kind, count, idx = spec
     rng = ctx.rng("%s/%d" % (kind, idx))
     if kind == "spans":
@@ -431,7 +518,8 @@ def run_shard(ctx, spec):
 def plan(tier, seed):
     n = 20000 if tier == "quick" else 500000
     m = 10000 if tier == "quick" else 250000
-    return [("spans", n // 16, i) for i in range(16)] + [("snippets", m // 16, i) for i in range(16)] + [("catalogue",)]
+    return ([("spans", n // 16, i) for i in range(16)] + [("snippets", m // 16, i) for i in range(16)] + [("catalogue",)]
+            + [("named", (4000 if tier == "quick" else 200000) // 8, i) for i in range(8)])
 
 
 def main(tier, seed):
